@@ -2,6 +2,10 @@
 #define IDENT_H
 #include "hx.h"
 
+#ifdef __cplusplus
+extern "C" {
+#endif
+
 struct ident_obj {
   int valid;
   uint64_t dev, ino, rdev;
@@ -20,5 +24,9 @@ int ident_check(const char *prop, const char *key, const struct vk_child *c, con
 int ident_api_check(const char *prop, const char *key, reproc_t *p, const struct ident_expect *ex);
 int ident_parent_fd_for_stream(const struct vk_child *c, int stream);
 const char *ident_type_name(int t);
+
+#ifdef __cplusplus
+}
+#endif
 
 #endif
